@@ -322,4 +322,9 @@ def run(ctx: Ctx) -> None:
                     rep.bad("C15.R6", f.qname, desc, f.loc(st), [f"{g} keeps the value after the evaluation ended, and is read again by the API module:"] + witness_path(fcfg, f, badp),
                             "global:" + g, what=f"module-level state `{g}` set by one evaluation (a dry run included) is visible to the next evaluation")
     rep.floor("C15.R6", n6, 1)
-
+    from .common import kinds_not_confused
+    rep.rule("C15.R9", "the stage parser is given the value of the `dds_stages` option - a value of its declared type (mypy: no argument of another type reaches "
+                       "_parse_stages, nor another kind of name any call of the API module)")
+    n9 = kinds_not_confused(ctx, "C15.R9", ("dds._api", "dds"), "the requested stage list is ignored: dds.eval(f, dds_stages=['analysis']) runs user code, writes blobs and commits paths",
+                            callees=("_parse_stages", parser.name))
+    rep.floor("C15.R9", n9, 3)
